@@ -54,6 +54,9 @@ func (aacdp *aacDepacketizer) Depacketize(packet *Packet) (err error) {
 
 func (aacdp *aacDepacketizer) depacketizeFor2ByteAUHeader(packet *Packet) (err error) {
 	payload := packet.Payload()
+	if len(payload) < 2 { // AU-headers-length 不完整
+		return
+	}
 
 	// AU-headers-length 2bytes
 	auHeadersLength := uint16(0) | (uint16(payload[0]) << 8) | uint16(payload[1])
@@ -61,6 +64,9 @@ func (aacdp *aacDepacketizer) depacketizeFor2ByteAUHeader(packet *Packet) (err e
 	auHeadersCount := auHeadersLength >> 4
 	// AU 帧数据偏移位置
 	framesPayloadOffset := 2 + int(auHeadersCount)<<1
+	if framesPayloadOffset > len(payload) { // AU-header 区超出包长
+		return
+	}
 
 	auHeaders := payload[2:framesPayloadOffset]
 	framesPayload := payload[framesPayloadOffset:]
@@ -68,6 +74,9 @@ func (aacdp *aacDepacketizer) depacketizeFor2ByteAUHeader(packet *Packet) (err e
 	for i := 0; i < int(auHeadersCount); i++ {
 		auHeader := uint16(0) | (uint16(auHeaders[0]) << 8) | uint16(auHeaders[1])
 		frameSize := auHeader >> aacdp.indexLength
+		if int(frameSize) > len(framesPayload) { // 截断的 AU，整体丢弃
+			return
+		}
 		pts := aacdp.rtp2ntp(frameTimeStamp) + ptsDelay
 		frame := &codec.Frame{
 			MediaType: codec.MediaTypeAudio,
@@ -90,6 +99,9 @@ func (aacdp *aacDepacketizer) depacketizeFor2ByteAUHeader(packet *Packet) (err e
 
 func (aacdp *aacDepacketizer) depacketizeFor1ByteAUHeader(packet *Packet) (err error) {
 	payload := packet.Payload()
+	if len(payload) < 2 { // AU-headers-length 不完整
+		return
+	}
 
 	// AU-headers-length 2bytes
 	auHeadersLength := uint16(0) | (uint16(payload[0]) << 8) | uint16(payload[1])
@@ -97,6 +109,9 @@ func (aacdp *aacDepacketizer) depacketizeFor1ByteAUHeader(packet *Packet) (err e
 	auHeadersCount := auHeadersLength >> 4
 	// AU 帧数据偏移位置
 	framesPayloadOffset := 2 + int(auHeadersCount)
+	if framesPayloadOffset > len(payload) { // AU-header 区超出包长
+		return
+	}
 
 	auHeaders := payload[2:framesPayloadOffset]
 	framesPayload := payload[framesPayloadOffset:]
@@ -104,6 +119,9 @@ func (aacdp *aacDepacketizer) depacketizeFor1ByteAUHeader(packet *Packet) (err e
 	for i := 0; i < int(auHeadersCount); i++ {
 		auHeader := auHeaders[0]
 		frameSize := auHeader >> aacdp.indexLength
+		if int(frameSize) > len(framesPayload) { // 截断的 AU，整体丢弃
+			return
+		}
 		pts := aacdp.rtp2ntp(frameTimeStamp) + ptsDelay
 		frame := &codec.Frame{
 			MediaType: codec.MediaTypeAudio,
